@@ -30,4 +30,13 @@ def main() -> int:
 
 
 if __name__ == "__main__":
-    sys.exit(main())
+    try:
+        rc = main()
+    except SystemExit:
+        raise
+    except BaseException:  # pylint: disable=broad-except
+        import traceback
+        traceback.print_exc()
+        print("HARNESS-ERROR: the check itself failed (this is not a verdict about the property)", flush=True)
+        rc = 3
+    sys.exit(rc)
